@@ -1304,29 +1304,32 @@ func writeEvidence(c *Ctx, pd *PropDef, a *agg, nUnits int, wall float64, nViol 
 		"wall_s":     wall,
 		"violations": nViol,
 	}
-	// the race binary and the plain binary both contribute to one file: merge
+	// the race binary and the plain binary both contribute to one file: the deterministic
+	// part stays on top, the monitor's coverage is nested under "monitor_part"
 	path := filepath.Join(c.Dir, "evidence", pd.ID+".json")
 	if os.Getenv("VERIF_EVIDENCE_MERGE") != "" {
 		if old, err := os.ReadFile(path); err == nil {
 			var o map[string]any
 			if json.Unmarshal(old, &o) == nil {
 				if oc, ok := o["coverage"].(map[string]any); ok {
-					cov["deterministic_part"] = oc
+					oc["monitor_part"] = cov
+					oc["monitor_note"] = "race-detector monitor (free-running goroutines, not deterministic): counts below 'monitor_part' are its own; evaluations and distinct_nontrivial on top are the sums"
 					if v, ok := oc["evaluations"].(float64); ok {
-						cov["evaluations"] = a.evals + int64(v)
+						oc["evaluations"] = a.evals + int64(v)
 					}
 					if v, ok := oc["distinct_nontrivial"].(float64); ok {
-						cov["distinct_nontrivial"] = distinct + int(v)
+						oc["distinct_nontrivial"] = distinct + int(v)
 					}
-					if s, ok := oc["samples"].([]any); ok {
-						cov["samples"] = append(s, samples...)
+					if sm, ok := oc["samples"].([]any); ok {
+						oc["samples"] = append(sm, samples...)
 					}
 					if v, ok := o["wall_s"].(float64); ok {
-						ev["wall_s"] = wall + v
+						o["wall_s"] = wall + v
 					}
 					if v, ok := o["violations"].(float64); ok {
-						ev["violations"] = nViol + int(v)
+						o["violations"] = nViol + int(v)
 					}
+					ev = o
 				}
 			}
 		}
